@@ -1,6 +1,8 @@
 """Glue: run World.verify for a list of contracts and register the obligations with the Ctx."""
 import time
 
+import z3
+
 from vf.runner import Unsupported
 from vf.pyvc.world import to_smt2
 
@@ -21,6 +23,14 @@ def verify_contracts(ctx, world, contracts, replayers=None, theory="int"):
             obls, stats = world.verify(c)
         except Unsupported as e:
             ctx.mark_unproved(fq, "unsupported: %s" % e)
+            continue
+        except (z3.Z3Exception, AttributeError, TypeError, KeyError, IndexError, ValueError, AssertionError, RecursionError) as e:
+            # the current text of the function took the generator somewhere it was not built for: that is "no proof",
+            # never a verdict and never a reason to lose the rest of the check (the bounded part still decides)
+            import traceback
+            tb = traceback.extract_tb(e.__traceback__)[-1]
+            ctx.mark_unproved(fq, "unsupported (generator error %s: %s at %s:%d)" % (type(e).__name__, str(e)[:120],
+                                                                                     tb.filename.split("/")[-1], tb.lineno))
             continue
         ctx.notes.append("%s: %s, vcgen %.1fs" % (fq, stats, time.time() - t0))
         if not obls:
